@@ -283,6 +283,10 @@ pub fn evaluate(c: &TapeCheck) -> Verdict {
     }
     if c.alloc.guard {
         let st = galloc::stats();
+        v.add("fired_alloc_guarded_requests", st.requests);
+        v.add("fired_alloc_placed_flush_right", st.right_placed);
+        v.add("fired_alloc_placed_flush_left", st.left_placed);
+        v.add("fired_alloc_same_address_reuse", st.reused);
         if st.canary_hits > 0 {
             v.fail("canary", 0, "bytes next to a tape block were overwritten".into());
         }
